@@ -86,7 +86,17 @@ def check_map_encoder(ctx, ty, emit, extras_field, rules=("R-1", "R-2", "R-5", "
     loops = [e for e in me.entries if e.get("loop") is not None]
     ctx.ob(R1, "entry-count:%s" % ty, len(typed) == len(emit) and len(loops) == 1,
            "%s emits %d typed entries then one loop of extras (found %d typed, %d loops)" % (ty, len(emit), len(typed), len(loops)), where=f.span)
-    # emission order = spec order, typed before extras
+    # emission order = spec order, typed before extras.  Alternatives for one label are mutually exclusive (their guards are
+    # checked below), so their relative order in the source carries no meaning: align each run with the table's order.
+    i = 0
+    while i < len(typed):
+        j = i
+        while j + 1 < len(typed) and typed[j + 1].get("label") == typed[i].get("label") and typed[i].get("label") is not None:
+            j += 1
+        if j > i:
+            want = [k for (l, _, k, _) in emit if ("int", l) == typed[i].get("label")]
+            typed[i:j + 1] = sorted(typed[i:j + 1], key=lambda e: want.index(e.get("kind")) if e.get("kind") in want else len(want))
+        i = j + 1
     for i, (label, field, kind, guard) in enumerate(emit):
         got = typed[i] if i < len(typed) else None
         g = (got.get("label"), got.get("field"), got.get("kind"), got.get("guard")) if got else None
